@@ -42,6 +42,20 @@ def make_pool(rng, size=None, style=None):
             seen.add(k)
             pool.append(k)
 
+    if style == "comb":
+        n = rng.choice([33, 36, 40, 48])
+        base = bytes(byte() for _ in range(n))
+        add(base)
+        positions = list(range(2 * n))
+        rng.shuffle(positions)
+        for pos in positions[: rng.choice([40, 66, 70, 80])]:
+            b = bytearray(base)
+            nib = (b[pos // 2] >> 4) if pos % 2 == 0 else (b[pos // 2] & 15)
+            new = (nib + 1 + rng.randrange(15)) % 16
+            b[pos // 2] = (new << 4 | (b[pos // 2] & 15)) if pos % 2 == 0 else ((b[pos // 2] & 0xF0) | new)
+            add(bytes(b))
+        return pool
+
     if style == "mirror":
         plen = rng.choice([1, 1, 2])
         prefixes = []
@@ -210,6 +224,7 @@ class HistoryGen:
         self.lookups = lookups
         self.h = handle
         self.p_hdl = 0.0
+        self.p_sub = 0.0
         self.present = {}
         self.batch_present = None
         # swarm: per-run operation weights
@@ -228,12 +243,15 @@ class HistoryGen:
         self.p_hashval = r.choice([0.0, 0.0, 0.0, 0.1, 0.3])
         self.p_bcopy = r.choice([0.0, 0.0, 0.2])
         self.p_hdl = r.choice([0.0, 0.0, 0.1, 0.3])
+        self.p_sub = r.choice([0.0, 0.0, 0.2, 0.5])
 
     def _cmd(self, d):
         if self.h is not None:
             d["h"] = self.h
         if self.p_hdl and self.rng.random() < self.p_hdl:
             d["hdl"] = 1
+        if self.p_sub and "k" in d and self.rng.random() < self.p_sub:
+            d["sub"] = 1
         return d
 
     def _via(self):
@@ -291,6 +309,12 @@ class HistoryGen:
     def history(self, n_events):
         rng = self.rng
         out = []
+        if len(self.pool) > 40 and n_events > 0:
+            # a comb pool only gets deep when most of its keys are stored: load it first
+            v = rng.choice(self.values)[:4] or b"\x01"
+            for k in self.pool:
+                self.present[k] = v
+                out.append(self._cmd({"op": "set", "k": hx(k), "v": hx(v), "via": "m", "on": "live"}))
         while len(out) < n_events:
             w = self.w
             r = rng.choices(["mut", "bopen", "reopen"], [w["set"] + w["del"] + w["sete"] + w["noop"], w["bopen"], w["reopen"]])[0]
@@ -316,7 +340,7 @@ class HistoryGen:
                 out.append(self._cmd({"op": "bcopy"}))
         abort = rng.random() < self.p_abort if force is None else force
         if abort:
-            out.append(self._cmd({"op": "babort", "exc": rng.choice(["E", "B", "G"])}))
+            out.append(self._cmd({"op": "babort", "exc": rng.choice(["E", "E", "B", "G", "F"])}))
         else:
             out.append(self._cmd({"op": "bcommit"}))
             self.present = self.batch_present
